@@ -60,7 +60,7 @@ func (c17) Budget(tier string) runner.Budget {
 	if tier == "thorough" {
 		return runner.Budget{Plans: 60000, PlansPerProc: 60, Wall: 14 * time.Minute}
 	}
-	return runner.Budget{Plans: 8000, PlansPerProc: 60, Wall: 45 * time.Second}
+	return runner.Budget{Plans: 8000, PlansPerProc: 60, Wall: 30 * time.Second}
 }
 
 func (c17) Describe() runner.Description {
